@@ -1,4 +1,5 @@
 import Dtr.Props.C09
+import Dtr.Proofs.SrcTables
 import Dtr.Proofs.ParserDenotes
 /-!
 # C12 — malformed programs are rejected, never silently accepted
@@ -154,5 +155,9 @@ theorem DNested.ends : ∀ {k : Kind} {u : List ATok} {b : List Stmt}, DNested k
     obtain ⟨pre, hp⟩ := h.ends; exact ⟨ts ++ .sym .Eol :: pre, by rw [hp]; simp⟩
   | _, _, _, .decl k ts rest b _ h => by
     obtain ⟨pre, hp⟩ := h.ends; exact ⟨ts ++ .sym .Eol :: pre, by rw [hp]; simp⟩
+
+/-- **The function table is the source's** `FUNC_TABLE` (`src/expr.rs`, translated on every run): same names, same
+numbers of arguments.  (Vacuous when the translator does not recognise the source's shape.) -/
+theorem C12_function_table_from_source : funcTableOK = true := funcTable_from_source
 
 end Dtr
